@@ -63,6 +63,8 @@ pub mod path;
 
 #[cfg(feature = "async-vfs")]
 pub mod async_vfs;
+#[cfg(feature = "verif-hooks")]
+pub mod verif_hooks;
 
 pub use error::{VfsError, VfsResult};
 pub use filesystem::FileSystem;
